@@ -8,6 +8,8 @@
    records what the error looks like at every level and what each client saw on the wire.
    The domain includes a status sweep (every own status 400..599 around a no-code and a
    custom-code error, on all three HEAD carriers and two body carriers even in the quick tier).
+   It also includes custom codes that are case variants of tabled codes, and listings whose
+   backend iterator yields 1-2 items and THEN the error (page sizes 1, 2 and the default).
    The thorough tier adds seeded-random trees (nested wrappers, several joined codes, random
    statuses 400..599, random messages and JSON details) over all 18 carriers.
 3. TLC validates every recorded case against OciErrorTrace.
@@ -46,6 +48,8 @@ def batch_key(e):
     nodes = list(walk(e['err']))
     if e['carrier'] == 'PushBlobChunkedResume':
         return 'resume'
+    if e.get('nitems', 0) > 0:
+        return 'listitems'
     if any(t['t'] == 'E' for n in nodes for t in n['msg']) or any(n['k'] == 'http' and not n['kids'] for n in nodes):
         return 'emptyish'
     if any(n['k'] == 'http' and n['status'] == 416 for n in nodes):
@@ -168,6 +172,11 @@ def run(ctx):
     nb = nh = 0
     nsweep = 0
     for g in gen:
+        if g['kind'] == 'LIST':
+            # listings whose backend yields items and THEN the error: all three listing carriers
+            for c in ['Tags', 'Repositories', 'Referrers']:
+                cases.append(dict(id=len(cases), carrier=c, hops=HOPS, err=g['err'], nitems=g['nitems'], page=g['page']))
+            continue
         if g['kind'] == 'HEAD':
             lst = HEAD if (not quick or g.get('sweep')) else [HEAD[nh % 3]]
             nh += 1
@@ -179,7 +188,7 @@ def run(ctx):
                 nsweep += 1
             nb += 1
         for c in lst:
-            cases.append(dict(id=len(cases), carrier=c, hops=HOPS, err=g['err']))
+            cases.append(dict(id=len(cases), carrier=c, hops=HOPS, err=g['err'], nitems=0, page=0))
     cd = ctx.sub('cases')
     cfile = os.path.join(cd, 'cases.jsonl')
     with open(cfile, 'w') as f:
